@@ -66,6 +66,8 @@ def generate(rng, tier):
         c = c06.build(m2)
         if c is not None:
             yield Case(c.lines, dict(c.meta, reader=1))
+    for c in c06.reader_byte_sweeps(random.Random(rng.randrange(1 << 30)), tier):
+        yield Case(c.lines, {"reader": 1, "start": "sweep", "et": 0, "data": "-", "k3": "read"})
     # ARP with every address size class through both doors (the sizes are attacker controlled octets)
     for hl, pl in [(6, 4), (8, 4), (6, 16), (0, 0), (255, 255), (1, 255), (255, 0), (7, 5), (20, 4)]:
         for hw, pt in [(1, 0x0800), (1, 0x86DD), (6, 0x0800), (rng.randrange(65536), rng.randrange(65536))]:
